@@ -252,7 +252,9 @@ def _explore(arg):
                     continue
                 m2 = model.clone()
                 fn(m2)
+                proj.tick()
                 write_model(src, model, m2)
+                proj.tick()
                 expect = [tu for tu in ('main.c', 'util.c')
                           if set(changed) & (m2.closure(tu) | model.closure(tu))]
                 ok = build(label, expect, m2)
